@@ -88,6 +88,17 @@ def tla_set(items):
     return "{" + ", ".join('"%s"' % i for i in items) + "}"
 
 
+def _die_with_parent():
+    """preexec_fn: the child gets SIGTERM when this process dies (`timeout` passes it on to TLC), so
+    an aborted check cannot leave a model checker behind that fills the disk with states"""
+    try:
+        import ctypes
+        import signal
+        ctypes.CDLL("libc.so.6", use_errno=True).prctl(1, signal.SIGTERM)
+    except Exception:
+        pass
+
+
 def run_tlc(module, cfg_text, wd, name, workers=8, timeout=900, env=None, args=(), out=None):
     """Run TLC; returns dict(out_path, rc, states, distinct, violated, error, wall)."""
     cfg = os.path.join(wd, name + ".cfg")
@@ -102,7 +113,7 @@ def run_tlc(module, cfg_text, wd, name, workers=8, timeout=900, env=None, args=(
         e.update(env)
     t0 = time.time()
     with open(out, "w") as f:
-        p = subprocess.run(cmd, cwd=SPEC, env=e, stdout=f, stderr=subprocess.STDOUT)
+        p = subprocess.run(cmd, cwd=SPEC, env=e, stdout=f, stderr=subprocess.STDOUT, preexec_fn=_die_with_parent)
     wall = time.time() - t0
     shutil.rmtree(meta, ignore_errors=True)
     res = dict(out=out, rc=p.returncode, wall=wall, states=0, distinct=0, violated=None,
@@ -209,7 +220,7 @@ def trace_validate(module, cfg_text, trace, wd, name, shards=12, timeout=1200):
         cmd = ["timeout", str(timeout), "tlc", "-workers", "1", "-metadir", meta, "-cleanup",
                "-noGenerateSpecTE", "-config", cfg, module + ".tla"]
         fo = open(out, "w")
-        procs.append((subprocess.Popen(cmd, cwd=SPEC, env=e, stdout=fo, stderr=subprocess.STDOUT),
+        procs.append((subprocess.Popen(cmd, cwd=SPEC, env=e, stdout=fo, stderr=subprocess.STDOUT, preexec_fn=_die_with_parent),
                       fo, out, meta, fpath))
     for p, fo, out, meta, fpath in procs:
         p.wait()
